@@ -318,6 +318,8 @@ class GlobalIR:
         """a store to a cell: putting back the value saved at entry, or a change"""
         key = ast.unparse(value)
         if self.ctx['saved'].get(key) == cell:
+            if key.endswith('.pop()'):
+                del self.ctx['saved'][key]      # the next pop yields another value
             self.ctx['dirty'].discard(cell)
             return ('restore', [CELLS[cell]])
         self.ctx['dirty'].add(cell)
@@ -338,6 +340,15 @@ class GlobalIR:
         # css_parser.setSerializer(x)
         if isinstance(f, ast.Attribute) and f.attr == 'setSerializer' and isinstance(f.value, ast.Name) and f.value.id == 'css_parser':
             return self.write('css_parser.ser', node.args[0])
+        # a save stack: X.append(<cell, read while untouched>) ... <cell> = X.pop(); one pop per append
+        if isinstance(f, ast.Attribute) and f.attr == 'append' and len(node.args) == 1 and not node.keywords and \
+                isinstance(node.args[0], ast.Attribute) and not cell_of(f.value):
+            src = cell_of(node.args[0])
+            if src and src not in self.ctx['dirty'] and 'css_parser.' + '.'.join(root_name(node.args[0])[1]) == src:
+                self.ctx['saved'][ast.unparse(f.value) + '.pop()'] = src
+                return ('skip',)
+        if isinstance(f, ast.Attribute) and f.attr == 'pop' and not node.args and ast.unparse(node) in self.ctx['saved']:
+            return ('skip',)
         # a change below a cell
         if isinstance(f, ast.Attribute) and cell_of(f.value):
             cell = cell_of(f.value)
